@@ -93,14 +93,14 @@ type zap4Below zapcore.Level
 
 func (b zap4Below) Enabled(l zapcore.Level) bool { return l < zapcore.Level(b) }
 
-func vC04Case(entriesPerG int) {
+func vC04Case(entriesPerG int, kinds []int, withReflected bool) {
 	cfg := zapcore.EncoderConfig{MessageKey: "m"}
 	enc := zapcore.NewJSONEncoder(cfg)
 	a, b := &vRawSink{name: "a"}, &vRawSink{name: "b"}
 	var core zapcore.Core
 	var buffered *zapcore.BufferedWriteSyncer
 	sinks := []*vRawSink{a}
-	kind := vrt.Choice("core", 5)
+	kind := kinds[vrt.Choice("core", len(kinds))]
 	lvl1 := zapcore.InfoLevel // the level the second goroutine logs at
 	switch kind {
 	case 0: // Lock(sink)
@@ -124,7 +124,7 @@ func vC04Case(entriesPerG int) {
 	root := New(core)
 	child := root.With(Int("c", 1))
 	// reflected values go through a per-encoder reflection buffer: context and call-site fields of that kind
-	reflected := vrt.Choice("reflected", 2) == 1
+	reflected := withReflected && vrt.Choice("reflected", 2) == 1
 	if reflected {
 		root = root.With(Reflect("r", vPayload4{1}))
 		child = root.Named("n") // same core, hence the same long-lived encoder, as the root
@@ -193,7 +193,7 @@ func vC04Case(entriesPerG int) {
 }
 
 //verif: prop=C04 bounds="2 goroutines, 1 entry each (root logger and a With-child, optionally with a reflected context value and reflected call-site fields; messages carry a symbolic letter), optionally one of them also calling Sync, over {Lock(sink), BufferedWriteSyncer(Size 16: the child's line exceeds the buffer) straight over the sink, tee of two locked cores, CombineWriteSyncers of two sinks, one Lock(sink) shared by a buffered below-Error branch and a direct Error branch of a tee (the second goroutine logs at Error)}; the raw sink yields in the middle of every write; every interleaving of synchronisation operations with at most 2 preemptions; race monitor on"
-func VC04Two() { vC04Case(1) }
+func VC04Two() { vC04Case(1, []int{0, 1, 2, 3, 4}, true) }
 
-//verif: prop=C04 tier=thorough bounds="2 goroutines, 2 entries each (as VC04Two), at most 3 preemptions"
-func VC04TwoByTwo() { vC04Case(2) }
+//verif: prop=C04 tier=thorough bounds="2 goroutines, 2 entries each over {Lock(sink), BufferedWriteSyncer straight over the sink, one Lock(sink) shared by a buffered and a direct tee branch}, plain fields, optionally one goroutine also calling Sync; at most 3 preemptions"
+func VC04TwoByTwo() { vC04Case(2, []int{0, 1, 4}, false) }
